@@ -87,6 +87,14 @@ static void match_inputs(const dfa_t& sm, const hcase& c, std::ostream& o) {
   }
 }
 
+// the library's own entry point regex::analyze_dfa_size takes an array of exactly the pattern's size: dispatch on the length
+template<size_t L> static bool ads_exact(const std::string& p, size32_t& out) {
+  char a[L + 1]; for (size_t i = 0; i < L; ++i) a[i] = p[i]; a[L] = 0;
+  try { out = regex::analyze_dfa_size(a); return true; } catch (const std::exception&) { return false; }
+}
+template<size_t... I> static int ads_dispatch(const std::string& p, size32_t& out, std::index_sequence<I...>) {
+  int r = -1; ((p.size() == I + 1 ? void(r = ads_exact<I + 1>(p, out) ? 1 : 0) : void()), ...); return r;
+}
 static void run_case(const hcase& c, std::ostream& o) {
   o << "CASE " << c.id << "\n";
   auto sm = std::make_unique<dfa_t>();
@@ -98,6 +106,8 @@ static void run_case(const hcase& c, std::ostream& o) {
         auto r = regex::regex_parser::regex_parser_object.context_parse(a, parse_options{}.set_skip_whitespace(false), buf, ns);
         ok1 = r.has_value(); if (ok1) predicted = r.value().n;
         o << "ANALYZE " << (ok1 ? "ok " : "fail ") << predicted << (buf.faults ? " OVERREAD" : "") << "\n"; }
+      { size32_t n = 0; int r = ads_dispatch(c.pattern, n, std::make_index_sequence<24>{});      // regex::analyze_dfa_size itself (what dfa_size of regex_term / regex::expr is)
+        if (r >= 0) o << "ADS " << (r ? "ok " : "fail ") << n << "\n"; }
       if (ok1 && predicted <= NMAX) {
         regex::dfa_builder<NMAX> b(*sm); pattern_buffer buf(c.pattern);
         auto r = regex::regex_parser::regex_parser_object.context_parse(b, parse_options{}.set_skip_whitespace(false), buf, ns);
